@@ -412,15 +412,12 @@ func zvC02Run(paths []*route.Path, hist []zvC02Op) zvC02Obs {
 }
 
 func zvC02HistKind(h []zvC02Op) string {
-	adds, rem := 0, 0
 	for _, o := range h {
-		if o.Op == "add" {
-			adds++
-		} else {
-			rem++
+		if o.Op != "add" {
+			return "with_removal"
 		}
 	}
-	return fmt.Sprintf("insert%d_remove%d", adds, rem)
+	return "insert_only"
 }
 
 func zvC02Final(ds []zvSelPD, hist []zvC02Op) (final []zvSelPD, canon []zvC02Op) {
@@ -447,7 +444,8 @@ func zvC02Compare(r *vh.Run, ds []zvSelPD, hist []zvC02Op, ref, got zvC02Obs) {
 	}
 	final, canon := zvC02Final(ds, hist)
 	c := zvC02Case{Kind: "locrib", Paths: ds, Hist: hist}
-	base := []string{"history", zvC02HistKind(hist), "types", zvC02Types(final...), "steps", zvC02Steps(final...), "mixed_cluster_list_presence", fmt.Sprint(zvC02MixedCL(final...))}
+	// the deciding steps are part of the pair/triple signatures; here only what separates root causes at the LocRIB level
+	base := []string{"history", zvC02HistKind(hist), "types", zvC02Types(final...), "mixed_cluster_list_presence", fmt.Sprint(zvC02MixedCL(final...))}
 	if got.err != "" {
 		r.Violation(vh.Sig("clause", "locrib_panic", "op", got.failOp, "types", zvC02Types(ds...)), c, "LocRIB.%s panicked during history %v on candidates %v: %s", got.failOp, hist, ds, got.err)
 		return
